@@ -175,6 +175,7 @@ def run(tier, seed, argv):
                       presence="symbolic per parameter and step (step 1: all present)", lists="Shampoo and SOAP (eigh, QR)")
     rep.assumptions = ["matrix routines replaced by recording stubs with symbolic outcome (the routines themselves: C10-C12)", "non-finite values are tensor-level markers propagated by every operation of the stand-in",
                        "weight decay, momentum and filtering switched off (they do not interact with the failure bookkeeping)"]
+    rep.validate_standin(6 if tier == "quick" else 24)
     rep.absorb("fault-sequences", par.run_jobs(jobs, chunk=8))
     return rep.finish("checks.c13")
 
